@@ -8,7 +8,9 @@ import (
 	"bufio"
 	"fmt"
 	"os"
+	"runtime"
 	"strings"
+	"time"
 )
 
 type port interface {
@@ -18,6 +20,8 @@ type port interface {
 }
 
 var ports = map[string]func() port{}
+
+var slowLog = os.Getenv("HARNESS_SLOW") != ""
 
 func main() {
 	if len(os.Args) < 2 {
@@ -37,7 +41,12 @@ func main() {
 		line, err := in.ReadString('\n')
 		line = strings.TrimSpace(line)
 		if line != "" && !strings.HasPrefix(line, "#") {
-			for _, o := range safeExec(&p, mk, strings.Fields(line)) {
+			t0 := time.Now()
+			obs := safeExec(&p, mk, strings.Fields(line))
+			if d := time.Since(t0); slowLog && d > 20*time.Millisecond {
+				fmt.Fprintf(os.Stderr, "slow %v: %.60s\n", d, line)
+			}
+			for _, o := range obs {
 				out.WriteString(o)
 				out.WriteByte('\n')
 			}
@@ -60,6 +69,9 @@ func safeExec(p *port, mk func() port, f []string) (obs []string) {
 	if f[0] == "reset" {
 		(*p).close()
 		*p = mk()
+		if slowLog {
+			fmt.Fprintf(os.Stderr, "goroutines %d\n", runtime.NumGoroutine())
+		}
 		return []string{"reset"}
 	}
 	if f[0] == "end" {
